@@ -185,6 +185,11 @@ def conventional(rng, name, feat=None):
     enums.append(aux.enum("Mode", "MODE_UNSPECIFIED", "FAST", "SLOW"))
     reserved = feat.get("reserved", True)
     rand_fields(rng, aux, enums, msgs, rng.randint(1, 5), tags, reserved)
+    if NO_REP_BOOL[0] and aux.pb.field and aux.pb.field[0].label == 3 and aux.pb.field[0].type == 11 \
+            and not aux.pb.field[0].type_name.endswith("Entry"):
+        # DESIGN §8.6 (C13 profile only): the emitted tests' mock for a flattened Aux follows first fields; a first field that is
+        # a repeated message leading back to Aux ends the recursion with [None] inside a list, which no message accepts
+        aux.pb.field[0].label = 1
     if rng.random() < 0.5:
         aux.field("self_ref", P + ".Aux")
         tags.add("recursive")
